@@ -14,6 +14,10 @@ import (
 
 var verif17Noticed = map[*dispatch.Dispatcher]bool{}
 
+// verif17WindowRemovals counts removals (manual or idle) applied while a
+// completed torrent's completion notice was still waiting (FINDINGS.md).
+var verif17WindowRemovals int
+
 func (e *verif17Env) ctrl() *torrentControl { return e.st.torrentControls[e.arch.t.Hash] }
 
 // noteNotices accounts for completion notices fired by dispatchers created or
@@ -42,10 +46,12 @@ func (e *verif17Env) completeTorrent() bool {
 }
 
 // wbHooks installs the bookkeeping around every applied event: completion
-// notices fired by dispatchers (each is one more asynchronous sender), and,
-// when cut is set, the exclusion of the window written up in FINDINGS.md.
+// notices fired by dispatchers (each is one more asynchronous sender), and the
+// recognition of the window written up in FINDINGS.md (nothing is excluded any
+// more: the defect was fixed upstream by e656c79).
 func (e *verif17Env) wbHooks() {
 	verif17Noticed = map[*dispatch.Dispatcher]bool{}
+	verif17WindowRemovals = 0
 	e.hookBefore = func(ev event) func() {
 		// window of FINDINGS.md: a completed torrent whose waiters have not been
 		// notified yet and whose completion notice is still waiting to be received
@@ -61,12 +67,11 @@ func (e *verif17Env) wbHooks() {
 			e.loop.mu.Unlock()
 		}
 		return func() {
-			if e.cut && inWindow && e.ctrl() != c0 {
+			if inWindow && e.ctrl() != c0 {
 				switch ev.(type) {
 				case removeTorrentEvent, preemptionTickEvent:
-					// the control was removed inside the window: known defect,
-					// checked by VerifDownloadFindingRemovalRace
-					verif.Assume(false)
+					// the control was removed inside the window
+					verif17WindowRemovals++
 				}
 			}
 			e.noteNotices()
@@ -129,20 +134,27 @@ func (e *verif17Env) run() {
 		}
 		e.applyOne(j)
 	}
+	if e.onlyWindow {
+		verif.Assume(verif17WindowRemovals > 0)
+		verif.Reach("removal-inside-completion-window")
+	}
 	e.finish()
 }
 
-// VerifDownloadReturnsOnce: every interleaving outside the window of
-// FINDINGS.md.
+// VerifDownloadReturnsOnce: every interleaving (the former exclusion of the
+// window of FINDINGS.md was removed after the upstream fix e656c79).
 func VerifDownloadReturnsOnce() {
-	verif.Note("applying a removal (manual or idle) while a completed torrent still has un-notified waiters is cut here; see VerifDownloadFindingRemovalRace")
-	e := verif17NewEnv(true)
+	e := verif17NewEnv(false)
 	e.run()
+	verif.Cover("removal-inside-completion-window", verif17WindowRemovals > 0)
 }
 
-// VerifDownloadFindingRemovalRace: the same exploration without the cut. Fires
-// on the current tree (FINDINGS.md): Download hangs.
+// VerifDownloadFindingRemovalRace: regression check for FINDINGS.md: only the
+// interleavings in which a removal (manual or idle) is received while the
+// completed torrent's completion notice is still waiting. Every caller must
+// still return (used to hang: fixed upstream by e656c79).
 func VerifDownloadFindingRemovalRace() {
 	e := verif17NewEnv(false)
+	e.onlyWindow = true
 	e.run()
 }
